@@ -21,7 +21,8 @@ def LocA (obs : Nat → Obs) (t : Nat) : Pc → Prop
     (obs o).used = some t ∧ (obs o).ins = false ∧ (obs o).subDone = false ∧ (obs o).fSer.isSome = true
   | .s6 o _ | .s7 o _ | .s8 o _ | .s8d o _ _ | .s9 o =>
     (obs o).used = some t ∧ (obs o).ins = true ∧ (obs o).subDone = false
-  | .u1 o | .u2 o | .u3 o | .u4 o | .u5 o | .u6 o | .u7 o | .u8 o | .u9 o | .u9r o | .u9c o | .u10 o =>
+  | .u1 o | .u2 o | .u3 o | .u4 o | .u5 o | .u6 o | .u7 o | .u8 o | .u9 o | .u9r o | .u9c o | .u10 o
+  | .e5 o | .e6 o | .e7 o | .e8 o | .e9 o | .e9r o | .e9c o =>
     (obs o).fnNext = false
   | _ => True
 
@@ -407,6 +408,92 @@ theorem invA_step_u10 {s s' : State} {t : Nat} {o : _} (h : InvA s)
   obs_case
 
 
+theorem invA_step_s10 {s s' : State} {t : Nat} {o : _} (h : InvA s)
+    (hpc : (s.threads t).pc = .s10 o) (hs : stepT s t = some s') : InvA s' := by
+  simp only [stepT, hpc, Option.some.injEq] at hs; subst hs
+  refine invA_thr h t _ ?_ (by simp [hpc, Pc.lateSub])
+  dsimp only
+  split <;> simp only [LocA] <;> grind
+
+theorem invA_step_e5 {s s' : State} {t : Nat} {o : _} (h : InvA s)
+    (hpc : (s.threads t).pc = .e5 o) (hs : stepT s t = some s') : InvA s' := by
+  have hl := h.loc t
+  rw [hpc] at hl; simp only [LocA] at hl
+  simp only [stepT, hpc, Option.some.injEq] at hs; subst hs
+  obtain ⟨hloc, hmapSer, hmapNodup, hserLe, hserInj, hlive, hlogIns, hinsUsed, hsubIns, hfLive, howner⟩ := h
+  constructor <;> simp only [setThr]
+  · intro t'
+    by_cases ht : t' = t
+    · subst ht; simp only [if_true]; split <;> simp only [LocA] <;> grind [setObs]
+    · simp only [if_neg ht]
+      refine LocA_mono ?_ ?_ ?_ (hloc t') <;> grind [setObs]
+  all_goals grind [setObs, Pc.lateSub]
+
+theorem invA_step_e6 {s s' : State} {t : Nat} {o : _} (h : InvA s)
+    (hpc : (s.threads t).pc = .e6 o) (hs : stepT s t = some s') : InvA s' := by
+  have hl := h.loc t
+  rw [hpc] at hl; simp only [LocA] at hl
+  simp only [stepT, hpc, Option.some.injEq] at hs; subst hs
+  obs_case
+
+theorem invA_step_e7 {s s' : State} {t : Nat} {o : _} (h : InvA s)
+    (hpc : (s.threads t).pc = .e7 o) (hs : stepT s t = some s') : InvA s' := by
+  have hl := h.loc t
+  rw [hpc] at hl; simp only [LocA] at hl
+  simp only [stepT, hpc, Option.some.injEq] at hs; subst hs
+  exact invA_thr h t _ (by simpa [LocA] using hl) (by simp [hpc, Pc.lateSub])
+
+theorem invA_step_e8 {s s' : State} {t : Nat} {o : _} (h : InvA s)
+    (hpc : (s.threads t).pc = .e8 o) (hs : stepT s t = some s') : InvA s' := by
+  have hl := h.loc t
+  rw [hpc] at hl; simp only [LocA] at hl
+  simp only [stepT, hpc, Option.some.injEq] at hs; subst hs
+  exact invA_thr h t _ (by simpa [LocA] using hl) (by simp [hpc, Pc.lateSub])
+
+theorem invA_step_e9 {s s' : State} {t : Nat} {o : _} (h : InvA s)
+    (hpc : (s.threads t).pc = .e9 o) (hs : stepT s t = some s') : InvA s' := by
+  have hl := h.loc t
+  rw [hpc] at hl; simp only [LocA] at hl
+  simp only [stepT, hpc, Option.some.injEq] at hs; subst hs
+  refine invA_thr h t _ ?_ (by simp [hpc, Pc.lateSub])
+  dsimp only
+  split <;> simp only [LocA] <;> grind
+
+theorem invA_step_e9r {s s' : State} {t : Nat} {o : _} (h : InvA s)
+    (hpc : (s.threads t).pc = .e9r o) (hs : stepT s t = some s') : InvA s' := by
+  have hl := h.loc t
+  rw [hpc] at hl; simp only [LocA] at hl
+  simp only [stepT, hpc, Option.some.injEq] at hs; subst hs
+  obtain ⟨hloc, hmapSer, hmapNodup, hserLe, hserInj, hlive, hlogIns, hinsUsed, hsubIns, hfLive, howner⟩ := h
+  constructor <;> simp only [setThr] <;> try assumption
+  · intro t'
+    by_cases ht : t' = t
+    · subst ht; simpa [LocA] using hl
+    · simp only [if_neg ht]; exact hloc t'
+  · intro k o' hm
+    exact hmapSer k o' (List.mem_filter.mp hm).1
+  · exact hmapNodup.sublist ((List.filter_sublist).map _)
+  · intro o' h1 h2
+    have hin := hlive o' h1 h2
+    simp only [List.mem_map] at hin ⊢
+    obtain ⟨⟨k, o''⟩, hm, rfl⟩ := hin
+    refine ⟨(k, o''), List.mem_filter.mpr ⟨hm, ?_⟩, rfl⟩
+    have hk := (hmapSer k o'' hm).1
+    simp only [bne_iff_ne, ne_eq]
+    intro heq
+    have := hserInj o o'' k heq.symm hk
+    subst this
+    rw [hl] at h2; exact Bool.noConfusion h2
+  · grind [Pc.lateSub]
+
+theorem invA_step_e9c {s s' : State} {t : Nat} {o : _} (h : InvA s)
+    (hpc : (s.threads t).pc = .e9c o) (hs : stepT s t = some s') : InvA s' := by
+  have hl := h.loc t
+  rw [hpc] at hl; simp only [LocA] at hl
+  simp only [stepT, hpc, Option.some.injEq] at hs; subst hs
+  obs_case
+
+
 theorem invA_step {s s' : State} {t : Nat} (h : InvA s) (hs : stepT s t = some s') : InvA s' := by
   cases hpc : (s.threads t).pc with
   | idle => exact invA_step_idle h hpc hs
@@ -426,6 +513,14 @@ theorem invA_step {s s' : State} {t : Nat} (h : InvA s) (hs : stepT s t = some s
   | s8 o hh => exact invA_step_s8 h hpc hs
   | s8d o x hh => exact invA_step_s8d h hpc hs
   | s9 o => exact invA_step_s9 h hpc hs
+  | s10 o => exact invA_step_s10 h hpc hs
+  | e5 o => exact invA_step_e5 h hpc hs
+  | e6 o => exact invA_step_e6 h hpc hs
+  | e7 o => exact invA_step_e7 h hpc hs
+  | e8 o => exact invA_step_e8 h hpc hs
+  | e9 o => exact invA_step_e9 h hpc hs
+  | e9r o => exact invA_step_e9r h hpc hs
+  | e9c o => exact invA_step_e9c h hpc hs
   | u0 o => exact invA_step_u0 h hpc hs
   | u1 o => exact invA_step_u1 h hpc hs
   | u2 o => exact invA_step_u2 h hpc hs
